@@ -1,6 +1,8 @@
 """C02 - 1-D binning is lower-inclusive, upper-exclusive, open at the top."""
 from fractions import Fraction
 
+import math
+
 import numpy
 from hypothesis import strategies as st
 
@@ -25,7 +27,8 @@ ASSUMPTIONS = ["edges are increasing and equally spaced to within float rounding
                "values are finite doubles up to +-1.797e308; +-inf and NaN are not coordinates or magnitudes (the library's tolerance arithmetic gives inf-inf for -inf)"]
 SHARDS = {"quick": 8, "thorough": 16}
 
-STEPS = ["0.1", "0.05", "0.025", "0.2", "0.25", "0.5", "1", "2", "0.125", "0.15", "0.3", "0.01", "0.03", "0.06", "0.7", "0.4", "0.02"]
+STEPS = ["0.1", "0.05", "0.025", "0.2", "0.25", "0.5", "1", "2", "0.125", "0.15", "0.3", "0.01", "0.03", "0.06", "0.7", "0.4", "0.02",
+         "0.07", "0.14", "0.55", "0.57", "0.35", "0.11", "0.09", "1.1", "0.6", "0.007"]
 
 
 def hx(x):
@@ -266,13 +269,15 @@ def check_case(ctx, case):
         o = call(fore.get_magnitude_index, numpy.array([v]))
         if o.ok:
             ctx.violation("get_magnitude_index_did_not_reject", {"v": v, "got": [int(g) for g in o.value]}, minimal(case, v))
-    # magnitude_counts on the unambiguous in-range values only (below-minimum events are C03's clause)
-    sure = [(v, next(iter(a))) for v, a in zip(vals, allowed) if len(a) == 1 and -1 not in a]
+    # magnitude_counts on the unambiguous values: in-range ones in their bin, values certainly below the first edge in no bin
+    # ("reported as out of range": the histogram leaves them uncounted)
+    sure = [(v, next(iter(a))) for v, a in zip(vals, allowed) if len(a) == 1 and (-1 not in a or (math.isfinite(v) and abs(v) < 1e300))]
     if sure:
         cat2 = CSEPCatalog(data=[("e%d" % i, 0, 0.5, 0.5, 1.0, v) for i, (v, _) in enumerate(sure)], region=region)
         want = [0] * n
         for _, k in sure:
-            want[k] += 1
+            if k >= 0:
+                want[k] += 1
         for name, f in (("magnitude_counts", lambda: cat2.magnitude_counts()), ("magnitude_counts_explicit", lambda: cat2.magnitude_counts(mag_bins=bins))):
             o = call(f)
             if not o.ok:
